@@ -74,10 +74,19 @@ def find_function(tree: ast.Module, qualname: str):
                 found = ch
         if found is None:
             # search inside If/Try blocks at module level (e.g. "if not NO_EXTENSIONS:")
-            for ch in ast.walk(node):
-                if isinstance(ch, (ast.ClassDef, ast.FunctionDef, ast.AsyncFunctionDef)) and ch.name == p:
-                    found = ch
-                    break
+            cands = [ch for ch in ast.walk(node)
+                     if isinstance(ch, (ast.ClassDef, ast.FunctionDef, ast.AsyncFunctionDef)) and ch.name == p]
+
+            def is_stub(fn):
+                # a typing-only twin: `def f(...) -> T: ...` under `if TYPE_CHECKING` next to the real definition
+                body = [b for b in getattr(fn, "body", []) if not (isinstance(b, ast.Expr) and isinstance(b.value, ast.Constant)
+                                                                   and isinstance(b.value.value, str))]
+                return all(isinstance(b, ast.Expr) and isinstance(b.value, ast.Constant) and b.value.value is Ellipsis
+                           for b in body) if body else True
+
+            real = [c_ for c_ in cands if not is_stub(c_)]
+            if real or cands:
+                found = (real or cands)[0]
         if found is None:
             raise LookupError(f"{qualname}: '{p}' not found")
         node = found
